@@ -387,6 +387,7 @@ inductive Tag where
   | countPrecondition  -- `Count` on a missing swamp answered FailedPrecondition
   | setErrDup          -- a failed swamp of `Set` produced two response entries
   | zeroLikeDropped    -- close/reload changed a zero-like value into void
+  | resurrected        -- a key that was deleted comes back from the file at reload
   deriving DecidableEq, Repr, Inhabited
 
 /-- the code's treasure object -/
@@ -411,6 +412,7 @@ structure Inst where
   inflight : List (Key × MRec) := []    -- creatingTreasures
   waiting : List Key := []              -- treasuresWaitingForWriter
   expIdx : Option (List Key) := none    -- expiration-time beacon (none = not built)
+  filed : List Key := []                -- keys whose live treasure object has a file pointer (loaded or written)
   imm : Bool := false                   -- write interval 0: `SaveFunction` writes at once
   disk : Option (List (Key × PRec)) := none   -- what the chronicler holds (none = no file yet)
   deriving DecidableEq, Repr, Inhabited
@@ -449,7 +451,8 @@ def exists_ (s : State) : Bool := s.live.isSome || s.file.isSome
 def summon (s : State) : Inst :=
   match s.live with
   | some i => i
-  | none => { recs := AL.mapV loadRec (s.file.getD []), imm := s.kind == .p0, disk := s.file }
+  | none => { recs := AL.mapV loadRec (s.file.getD []), filed := (s.file.getD []).map (·.1),
+              imm := s.kind == .p0, disk := s.file }
 
 /-- `isValidTimestamp` -/
 def validTs (cfg : Cfg) (n : Int) : Bool :=
@@ -526,6 +529,8 @@ def save (cfg : Cfg) (i : Inst) (k : Key) (t : MRec) (fresh : Bool) : Inst × St
   match AL.find k i.recs with
   | none =>
     ({ i with recs := AL.insert k cleared i.recs, inflight := AL.erase k i.inflight,
+              filed := if i.imm && cfg.saveReleasesImmediate then (AL.insert k cleared i.recs).map (·.1)
+                       else i.filed.filter (· != k),
               waiting := if i.imm && cfg.saveReleasesImmediate then [] else addWaiting i.waiting k,
               disk := if i.imm && cfg.saveReleasesImmediate then
                         flushDisk cfg.encoding (AL.insert k cleared i.recs) (addWaiting i.waiting k) i.disk
@@ -535,6 +540,7 @@ def save (cfg : Cfg) (i : Inst) (k : Key) (t : MRec) (fresh : Bool) : Inst × St
     if t.changed then
       let idx := if t.expChanged then (if t.m.exp ≠ 0 then idxAdd k (idxRemove k i.expIdx) else idxRemove k i.expIdx) else i.expIdx
       ({ i with recs := AL.insert k cleared i.recs,
+                filed := if i.imm && cfg.saveReleasesImmediate then (AL.insert k cleared i.recs).map (·.1) else i.filed,
                 waiting := if i.imm && cfg.saveReleasesImmediate then [] else addWaiting i.waiting k,
                 disk := if i.imm && cfg.saveReleasesImmediate then
                           flushDisk cfg.encoding (AL.insert k cleared i.recs) (addWaiting i.waiting k) i.disk
@@ -544,8 +550,11 @@ def save (cfg : Cfg) (i : Inst) (k : Key) (t : MRec) (fresh : Bool) : Inst × St
 
 /-- `deleteHandler` -/
 def deleteRec (i : Inst) (k : Key) : Inst :=
+  -- a treasure that was never written is simply dropped from the write buffer; one that has a
+  -- file pointer is queued as a delete
   { i with recs := AL.erase k i.recs,
-           waiting := addWaiting i.waiting k,
+           waiting := if i.filed.contains k then addWaiting i.waiting k else i.waiting.filter (· != k),
+           filed := i.filed.filter (· != k),
            expIdx := idxRemove k i.expIdx }
 
 /-- end of a request: auto-destroy of an emptied swamp is done by the delete paths themselves;
@@ -752,7 +761,8 @@ def closeTags (cfg : Cfg) (i : Inst) : List Tag :=
   (if i.recs.any (fun p => decide ((persistContent cfg.encoding p.2.c).vis ≠ p.2.c.vis)) then [Tag.zeroLikeDropped] else []) ++
   (if i.recs.any (fun p => !i.waiting.contains p.1 &&
         decide ((AL.find p.1 (i.disk.getD [])).map (fun q => (loadRec q).abs) ≠ some (loadRec (persistRec cfg.encoding p.2)).abs))
-   then [Tag.incFailTrace] else [])
+   then [Tag.incFailTrace] else []) ++
+  (if ((closeDisk cfg i).getD []).any (fun q => !AL.has q.1 i.recs) then [Tag.resurrected] else [])
 
 def stepCore (cfg : Cfg) (ar : Arith) (now : Int) (s : State) (req : Req) : Out :=
   match req with
